@@ -35,13 +35,13 @@ def pin_all(sym):
             sp.add(v.var == m.eval(v.var, model_completion=True))
 
 
-def h_dill(sym, kind="promotion", W=2, T=3, E=8, max_t=4, brackets=1, max_fail=0):
+def h_dill(sym, kind="promotion", W=2, T=3, E=8, max_t=4, brackets=1, max_fail=0, mode="min"):
     stubs.shim_modules(SHIMS.get(kind, []))
     kw = {}
     if brackets > 1:
         kw["brackets"] = brackets
     mf = kind not in ("fifo-random", "fifo-rea", "fifo-grid", "fifo-bo")
-    A = make_scheduler(kind, mode="min", max_t=max_t, seed=9, finite=(kind == "fifo-grid"), **kw)
+    A = make_scheduler(kind, mode=mode, max_t=max_t, seed=9, finite=(kind == "fifo-grid"), **kw)
 
     def snapshot(a, trials):
         pin_all(sym)
@@ -128,6 +128,12 @@ def obligations(tier):
         obs.append(Ob("C16.a[dill,%s%s]" % (kind, ",B=2" if extra else ""), "props.c16:h_dill", p, bounds=dict(T=p["T"], E=E, W=p["W"], max_t=mt, snapshot_at="0..E"),
                       goals=("snapshot", "end", "snapshot-while-running") + (("snapshot-while-paused",) if kind in ("promotion", "sync") else ()),
                       split=(("snapshot_at", tuple(range(E + 1))),), budget_s=1800, may_be_incomplete=not quick))
+    # mode max: state that carries the sign of the mode (sort keys, thresholds) must survive the round trip as well
+    for kind in ("stopping", "promotion"):
+        E = 7
+        p = dict(kind=kind, W=2, T=3, E=E, max_t=4, max_fail=0, mode="max")
+        obs.append(Ob("C16.a[dill,%s,max]" % kind, "props.c16:h_dill", p, bounds=dict(T=3, E=E, W=2, max_t=4, mode="max", snapshot_at="0..E"),
+                      goals=("snapshot", "end", "snapshot-while-running"), split=(("snapshot_at", tuple(range(E + 1))),), budget_s=1800, may_be_incomplete=not quick))
     N = 5 if quick else 6
     # allow_duplicates=True: the exclusion list still carries the configurations of FAILED trials
     obs.append(Ob("C16.b[get_state,random,seed=7,allow_duplicates]", "props.c16:h_searcher_state", dict(kind="random", N=N + 1, seed=7, allow_duplicates=True, small=True),
